@@ -99,6 +99,35 @@ def random_cases(count, seed, *, nmin=10, nmax=120, tag="r", ladders=True, stems
     return cases
 
 
+def stem_family_cases(scratch, maxk, lens, mincross, stars, tag="s"):
+    """spec -> code, stem level: TLC (Gen_StemFamily) enumerates every arrangement (chord diagram) of
+    2..maxk stems with >= mincross crossing stem pairs x every choice of stem lengths from `lens`,
+    plus the star structures (one stem crossed by M + 1 others, three levels needed)."""
+    out = scratch.path(f"stemfamily-{tag}.ndjson")
+    cfg = scratch.path(f"Gen_StemFamily_{tag}.cfg")
+    fmt = lambda xs: "{" + ", ".join(str(x) for x in sorted(xs)) + "}"
+    with open(cfg, "w") as f:
+        f.write(f"CONSTANT MaxK = {maxk}\nCONSTANT Lens = {fmt(lens)}\nCONSTANT MinCross = {mincross}\n"
+                f"CONSTANT Stars = {fmt(stars)}\n")
+    r = lib.tlc("Gen_StemFamily", cfg, workers=1, env={"OUT_FILE": out}, scratch=scratch, xmx="6g", tag="gensf")
+    if not r["ok"] or not os.path.exists(out):
+        raise lib.MachineryError("Gen_StemFamily failed:\n" + r["out"][-2000:])
+    cases = []
+    with open(out) as f:
+        for line in f:
+            d = json.loads(line)
+            cases.append({"kind": "bp", "n": d["n"], "pairs": sorted([list(p) for p in d["pairs"]]),
+                          "fam": d["fam"], "arr": d["arr"], "lens": d["lens"], "opt_limit": 20})
+    os.remove(out)
+    if f'<<"GENERATED", {len(cases)}>>' not in r["out"]:
+        raise lib.MachineryError("Gen_StemFamily: number of exported structures differs from the spec's count")
+    cases.sort(key=lambda c: (c["fam"], len(c["arr"]), c["arr"], c["lens"]))
+    for k, c in enumerate(cases):
+        c["id"] = f"{tag}{len(c['arr'])}-{k}"
+        c["seq"] = [LETTERS[(i * 5 + k) % 4] for i in range(c["n"])]
+    return cases
+
+
 def knotted_cases(count, seed, *, max_comp=7, tag="k"):
     """Random multi-stem knotted structures whose conflict components stay small enough for the
     spec's brute-force optimum (the spec re-decides feasibility itself)."""
@@ -174,7 +203,7 @@ def record_bp(case, want=("optimal", "fcfs", "all", "text"), all_limit=7, opt_li
     b = _bpseq(case)
     mc, perms = max_component(case["pairs"])
     # the MILP behind dot_bracket is exponential in the size of a clique of crossing stems
-    c["optimal_called"] = bool(mc <= opt_limit)
+    c["optimal_called"] = bool(mc <= case.get("opt_limit", opt_limit))
     c["optimal"] = _enc(lambda: b.dot_bracket) if c["optimal_called"] else {"err": "", "seq": [], "db": []}
     c["fcfs"] = _enc(lambda: b.fcfs)
     c["all_called"] = bool("all" in want and mc <= all_limit and perms <= perm_limit)
